@@ -2,6 +2,7 @@ package keeper
 
 import (
 	"fmt"
+	"sort"
 
 	keytypes "github.com/ExocoreNetwork/exocore/types/keys"
 	avstypes "github.com/ExocoreNetwork/exocore/x/avs/types"
@@ -9,7 +10,6 @@ import (
 	abci "github.com/cometbft/cometbft/abci/types"
 	cryptocodec "github.com/cosmos/cosmos-sdk/crypto/codec"
 	sdk "github.com/cosmos/cosmos-sdk/types"
-	stakingtypes "github.com/cosmos/cosmos-sdk/x/staking/types"
 	"github.com/ethereum/go-ethereum/common"
 	"github.com/ethereum/go-ethereum/common/hexutil"
 )
@@ -128,20 +128,28 @@ func (k Keeper) InitGenesis(
 func (k Keeper) ExportGenesis(ctx sdk.Context) *types.GenesisState {
 	genesis := types.DefaultGenesis()
 	genesis.Params = k.GetDogfoodParams(ctx)
+	// the validator set is exported as this module stores it, i.e. as CometBFT knows it: with the
+	// consensus key each validator is validating with (a replaced key stays in force until the end of
+	// the epoch), ordered by power.
 	validators := []types.GenesisValidator{}
-	k.IterateBondedValidatorsByPower(ctx, func(_ int64, val stakingtypes.ValidatorI) bool {
-		// #nosec G703 // already validated
-		pubKey, _ := val.ConsPubKey()
-		// #nosec G703 // already validated
+	storedValidators := k.GetAllExocoreValidators(ctx)
+	sort.SliceStable(storedValidators, func(i, j int) bool {
+		return storedValidators[i].Power > storedValidators[j].Power
+	})
+	for _, val := range storedValidators {
+		pubKey, err := val.ConsPubKey()
+		if err != nil {
+			panic(fmt.Sprintf("could not deserialize the consensus key of validator %x: %s", val.Address, err))
+		}
+		// #nosec G703 // the key was accepted when the validator was stored
 		convKey, _ := cryptocodec.ToTmPubKeyInterface(pubKey)
 		validators = append(validators,
 			types.GenesisValidator{
 				PublicKey: hexutil.Encode(convKey.Bytes()),
-				Power:     val.GetConsensusPower(sdk.DefaultPowerReduction),
+				Power:     val.Power,
 			},
 		)
-		return false // stop == false => continue iteration
-	})
+	}
 	return types.NewGenesis(
 		k.GetDogfoodParams(ctx),
 		validators,
